@@ -250,8 +250,10 @@ func (c *RawServerConn) handleRequestStream(str *stateTrackingStream) {
 	}
 
 	// response not written to the client yet, set Content-Length
+	// (not on responses that cannot have content: RFC 9110, section 8.6 forbids it for 204,
+	// and for a 304 the value would have to be the length of the corresponding 200 response)
 	if !r.headerWritten {
-		if _, haveCL := r.header["Content-Length"]; !haveCL {
+		if _, haveCL := r.header["Content-Length"]; !haveCL && r.status != http.StatusNoContent && r.status != http.StatusNotModified {
 			r.header.Set("Content-Length", strconv.FormatInt(r.numWritten, 10))
 		}
 	}
